@@ -1374,3 +1374,341 @@ Proof.
   intros tasks env f s s' i a H Ha. destruct (api_reach_static _ _ _ _ _ H _ _ Ha) as (a' & H1 & H2).
   exists a'. split; [exact H1|]. unfold static_of in H2. inversion H2. repeat split; assumption.
 Qed.
+
+(* ---- (b) in-loop instances are rebuilt from the source at every start ---- *)
+
+(* the states that differ from s at most in the delivered list of API object ai *)
+Definition with_delivered (ai : nat) (ps : list param) (s : NS) : NS :=
+  s <| ns_apis := upd ai (with_params ps) (ns_apis s) |>.
+Definition same_but_params (ai : nat) (s1 s2 : NS) : Prop := exists ps, s2 = with_delivered ai ps s1.
+
+Lemma upd_upd : forall A n (f g : A -> A) l, upd n f (upd n g l) = upd n (fun x => f (g x)) l.
+Proof. intros A n f g l. revert n. induction l as [|x l IH]; intros [|n]; cbn; try reflexivity. rewrite IH. reflexivity. Qed.
+
+Lemma upd_ext : forall A n (f g : A -> A) l, (forall x, f x = g x) -> upd n f l = upd n g l.
+Proof.
+  intros A n f g l H. revert n. induction l as [|x l IH]; intros [|n]; cbn; try reflexivity.
+  - rewrite H. reflexivity.
+  - rewrite IH. reflexivity.
+Qed.
+
+Lemma rebuilt_apis : forall ai u src ps l,
+    upd ai (with_params src) (upd ai (with_uuid u) (upd ai (with_params ps) l)) =
+    upd ai (with_params src) (upd ai (with_uuid u) l).
+Proof. intros. rewrite !upd_upd. apply upd_ext. intros [] . reflexivity. Qed.
+
+Lemma nbind_get_api : forall A i a (k : api -> NM A) s,
+    nth_error (ns_apis s) i = Some a -> nbind (get_api i) k s = k a s.
+Proof. intros A i a k s H. unfold nbind, get_api. rewrite H. reflexivity. Qed.
+
+Lemma nbind_nget : forall A (k : NS -> NM A) s, nbind nget k s = k s s.
+Proof. reflexivity. Qed.
+
+Lemma with_delivered_api : forall ai ps s a,
+    nth_error (ns_apis s) ai = Some a ->
+    nth_error (ns_apis (with_delivered ai ps s)) ai = Some (with_params ps a).
+Proof. intros ai ps s a H. unfold with_delivered. cbn. rewrite nth_error_upd, Nat.eqb_refl, H. reflexivity. Qed.
+
+Lemma nbind_cong_state : forall A B (m : NM A) (k : A -> NM B) s1 s2,
+    m s1 = m s2 -> nbind m k s1 = nbind m k s2.
+Proof. intros A B m k s1 s2 H. unfold nbind. rewrite H. reflexivity. Qed.
+
+Section Rebuild.
+  Variable tasks : list task.
+  Variable env : envcfg.
+
+  Lemma ots_prefix_rebuilds : forall ai ps s a,
+      nth_error (ns_apis s) ai = Some a -> a_in_loop a = true -> a_has_call a = true ->
+      ots_prefix tasks ai (with_delivered ai ps s) = ots_prefix tasks ai s.
+  Proof.
+    intros ai ps s a Ha Hl Hc. unfold ots_prefix.
+    rewrite (nbind_get_api _ _ _ _ _ (with_delivered_api ai ps s a Ha)), (nbind_get_api _ _ _ _ _ Ha).
+    rewrite !nbind_nget. cbn [a_in_loop a_has_call a_src with_params]. rewrite Hl, Hc.
+    unfold nbind.
+    destruct (ns_test_ids s) eqn:T.
+    - rewrite (new_test_or_uuid_test true s T).
+      rewrite (new_test_or_uuid_test true (with_delivered ai ps s) T).
+      unfold set_api, nmod. f_equal. unfold with_delivered. cbn. rewrite rebuilt_apis. reflexivity.
+    - rewrite (new_test_or_uuid_uuid true s T).
+      rewrite (new_test_or_uuid_uuid true (with_delivered ai ps s) T).
+      unfold set_api, nmod. f_equal. unfold with_delivered. cbn. rewrite rebuilt_apis. reflexivity.
+  Qed.
+
+  Lemma oss_prefix_rebuilds : forall ai ps s a,
+      nth_error (ns_apis s) ai = Some a -> a_in_loop a = true ->
+      oss_prefix tasks ai (with_delivered ai ps s) = oss_prefix tasks ai s.
+  Proof.
+    intros ai ps s a Ha Hl. unfold oss_prefix.
+    rewrite (nbind_get_api _ _ _ _ _ (with_delivered_api ai ps s a Ha)), (nbind_get_api _ _ _ _ _ Ha).
+    rewrite !nbind_nget. cbn [a_in_loop a_has_call a_src with_params]. rewrite Hl.
+    change (ns_test_ids (with_delivered ai ps s)) with (ns_test_ids s).
+    remember (substitute_loop_indexes tasks ai) as K.
+    unfold nbind, fresh_uuid, rebind_uuid, nget, set_api, nmod, nret, nfail.
+    destruct (ns_test_ids s) eqn:T.
+    - rewrite !new_test_or_uuid_test by exact T. cbn.
+      destruct (dict_get ident_eqb (a_uuid a) (ns_place_dict s)); [|reflexivity].
+      f_equal. unfold with_delivered. cbn. rewrite rebuilt_apis. reflexivity.
+    - cbn.
+      destruct (dict_get ident_eqb (a_uuid a) (ns_place_dict s)); [|reflexivity].
+      f_equal. unfold with_delivered. cbn. rewrite rebuilt_apis. reflexivity.
+  Qed.
+
+  (* THE C15 STATEMENT.  For an instance inside a loop, what the delivered list contained
+     before a start is irrelevant: starting it from a state in which that list was replaced by
+     ANY other list gives the same result -- same outcome, and the same final state --, in both
+     identifier modes, for every environment and every fuel.  (A task instance inside a loop
+     always has a task call; see [gtc_body].) *)
+  Theorem on_task_started_rebuilds : forall f ai ps s a,
+      nth_error (ns_apis s) ai = Some a -> a_in_loop a = true -> a_has_call a = true ->
+      on_task_started tasks env f ai (with_delivered ai ps s) = on_task_started tasks env f ai s.
+  Proof.
+    intros f ai ps s a Ha Hl Hc. destruct f as [|f]; [reflexivity|].
+    rewrite !on_task_started_S, !ots_body_split. apply nbind_cong_state.
+    exact (ots_prefix_rebuilds ai ps s a Ha Hl Hc).
+  Qed.
+
+  Theorem on_service_started_rebuilds : forall f ai ps s a,
+      nth_error (ns_apis s) ai = Some a -> a_in_loop a = true ->
+      on_service_started tasks env f ai (with_delivered ai ps s) = on_service_started tasks env f ai s.
+  Proof.
+    intros f ai ps s a Ha Hl. destruct f as [|f]; [reflexivity|].
+    rewrite !on_service_started_S, !oss_body_split. apply nbind_cong_state.
+    exact (oss_prefix_rebuilds ai ps s a Ha Hl).
+  Qed.
+
+  (* the same through the callbacks stored in the net *)
+  Theorem run_cb_started_rebuilds : forall f ai ps s a,
+      nth_error (ns_apis s) ai = Some a -> a_in_loop a = true ->
+      (a_has_call a = true ->
+       run_cb tasks env f (CbTS ai) (with_delivered ai ps s) = run_cb tasks env f (CbTS ai) s) /\
+      run_cb tasks env f (CbSS ai) (with_delivered ai ps s) = run_cb tasks env f (CbSS ai) s.
+  Proof.
+    intros f ai ps s a Ha Hl. destruct f as [|f]; [split; reflexivity|]. rewrite !run_cb_S. cbn [run_cb_body].
+    split; [intro Hc; eapply on_task_started_rebuilds; eauto|eapply on_service_started_rebuilds; eauto].
+  Qed.
+
+  (* in the words of the property: same outcome kind and, when Ok, EQUAL final states *)
+  Corollary started_same_but_params : forall f ai s1 s2 a,
+      same_but_params ai s1 s2 ->
+      nth_error (ns_apis s1) ai = Some a -> a_in_loop a = true ->
+      (a_has_call a = true -> on_task_started tasks env f ai s2 = on_task_started tasks env f ai s1) /\
+      on_service_started tasks env f ai s2 = on_service_started tasks env f ai s1.
+  Proof.
+    intros f ai s1 s2 a [ps ->] Ha Hl.
+    split; [intro Hc; eapply on_task_started_rebuilds; eauto|eapply on_service_started_rebuilds; eauto].
+  Qed.
+End Rebuild.
+
+(* ---- (c) instances outside loops: the list is delivered as it is ---- *)
+Definition params_at (j : nat) (s : NS) : option (list param) := option_map a_params (nth_error (ns_apis s) j).
+
+Lemma params_at_set_uuid : forall j i u s l s0,
+    ns_apis s0 = l ->
+    params_at j (s <| ns_apis := upd i (with_uuid u) l |>) = params_at j s0.
+Proof.
+  intros j i u s l s0 <-. unfold params_at. cbn. rewrite nth_error_upd. destruct (Nat.eqb i j); [|reflexivity].
+  destruct (nth_error (ns_apis s0) j); reflexivity.
+Qed.
+
+Section NonLoop.
+  Variable tasks : list task.
+
+  (* for an instance that is not in a loop the start handlers write no delivered list at all
+     (of any instance): what is delivered is what the object holds -- the list it was created
+     with, or whatever a hostile engine left in it; such an instance is started at most once
+     per order *)
+  Theorem ots_prefix_nonloop : forall ai s u s1 a,
+      nth_error (ns_apis s) ai = Some a -> a_in_loop a = false ->
+      ots_prefix tasks ai s = Ok (u, s1) -> forall j, params_at j s1 = params_at j s.
+  Proof.
+    intros ai s u s1 a Ha Hl H j. unfold ots_prefix in H.
+    rewrite (nbind_get_api _ _ _ _ _ Ha), nbind_nget, Hl in H.
+    destruct (ns_test_ids s) eqn:T; [|okinv H; reflexivity].
+    ninv H as u0 s2 E. rewrite (new_test_or_uuid_test true _ T) in E. okinv E. okinv H.
+    apply params_at_set_uuid. reflexivity.
+  Qed.
+
+  Theorem oss_prefix_nonloop : forall ai s u s1 a,
+      nth_error (ns_apis s) ai = Some a -> a_in_loop a = false ->
+      oss_prefix tasks ai s = Ok (u, s1) -> forall j, params_at j s1 = params_at j s.
+  Proof.
+    intros ai s u s1 a Ha Hl H j. unfold oss_prefix in H.
+    rewrite (nbind_get_api _ _ _ _ _ Ha), nbind_nget, Hl in H.
+    destruct (ns_test_ids s) eqn:T; [|okinv H; reflexivity].
+    ninv H as u0 s2 E. rewrite (new_test_or_uuid_test false _ T) in E. okinv E.
+    unfold rebind_uuid in H. ninv H as s3 s4 E. okinv E.
+    match type of H with context [dict_get ident_eqb ?x ?d] => destruct (dict_get ident_eqb x d) as [p|] end;
+      [|discriminate H].
+    ninv H as u1 s5 E. okinv E. okinv H.
+    apply params_at_set_uuid. reflexivity.
+  Qed.
+End NonLoop.
+
+(* ---- (d) the hostile engine writes the delivered list of the notified instance only ---- *)
+Definition hostile_write (env : envcfg) (k : nkind) (ai : nat) (a : api) (l : list api) : list api :=
+  match k with
+  | TS | SS => upd ai (with_params (hostile (ec_mutate env) (a_params a))) l
+  | _ => l
+  end.
+
+Section Hostile.
+  Variable env : envcfg.
+
+  (* the engine's own effect on the API objects during one notification about instance ai is
+     [hostile_write] on ai; everything else that happens to them happens inside the
+     fire_event calls it makes ([Rl] is any preorder those calls respect) *)
+  Theorem er_body_writes : forall (Rl : list api -> list api -> Prop) sfe,
+      (forall l, Rl l l) -> (forall a b c, Rl a b -> Rl b c -> Rl a c) ->
+      (forall ev s b s', sfe ev s = Ok (b, s') -> Rl (ns_apis s) (ns_apis s')) ->
+      forall k ai s u s' a,
+        nth_error (ns_apis s) ai = Some a ->
+        er_body env sfe k ai s = Ok (u, s') ->
+        Rl (hostile_write env k ai a (ns_apis s)) (ns_apis s').
+  Proof.
+    intros Rl sfe Rr Rt Hs k ai s u s' a Ha H. unfold er_body in H.
+    rewrite (nbind_get_api _ _ _ _ _ Ha) in H.
+    ninv H as u1 s1 E1.
+    assert (A1 : ns_apis s1 = ns_apis s) by (destruct k; okinv E1; reflexivity).
+    ninv H as u2 s2 E2.
+    assert (A2 : ns_apis s2 = hostile_write env k ai a (ns_apis s)).
+    { destruct k; okinv E2; cbn; rewrite ?A1; reflexivity. }
+    ninv H as u3 s3 E3.
+    assert (A3 : Rl (ns_apis s2) (ns_apis s3)).
+    { destruct k; try (okinv E3; apply Rr).
+      ninv E3 as s4 s5 E4. okinv E4. ninv E3 as u4 s6 E4. okinv E4.
+      destruct (ec_imm env (ns_nss s5)); [|okinv E3; apply Rr].
+      ninv E3 as b s7 E4. okinv E3. apply Hs in E4. exact E4. }
+    ninv H as s4 s5 E4. okinv E4. ninv H as u4 s6 E4. okinv E4.
+    rewrite <- A2. eapply Rt; [exact A3|].
+    destruct (if ec_react_all env || match k with TS | SS => true | _ => false end
+              then ec_react env (ns_nnot s5) else None) as [j|]; [|okinv H; apply Rr].
+    destruct (ns_pending s5) as [|p0 prest]; [okinv H; apply Rr|].
+    ninv H as u5 s7 E5. okinv E5. ninv H as r s8 E5. okinv H. apply Hs in E5. exact E5.
+  Qed.
+
+  (* an engine that completes nothing from inside the notification: exactly that write *)
+  Corollary er_body_alone : forall k ai s u s' a,
+      nth_error (ns_apis s) ai = Some a ->
+      er_body env (fun _ => nret false) k ai s = Ok (u, s') ->
+      ns_apis s' = hostile_write env k ai a (ns_apis s).
+  Proof.
+    intros k ai s u s' a Ha H. symmetry.
+    eapply (er_body_writes eq) in H; eauto; try congruence.
+    intros ev s0 b s0' HH. okinv HH. reflexivity.
+  Qed.
+
+  (* instance j's delivered list does not change through a notification about another
+     instance ai, unless a fire_event call made from inside the notification changes it *)
+  Corollary er_body_other_instance : forall sfe j,
+      (forall ev s b s', sfe ev s = Ok (b, s') -> params_at j s' = params_at j s) ->
+      forall k ai s u s' a,
+        j <> ai -> nth_error (ns_apis s) ai = Some a ->
+        er_body env sfe k ai s = Ok (u, s') -> params_at j s' = params_at j s.
+  Proof.
+    intros sfe j Hs k ai s u s' a Hj Ha H.
+    pose proof (er_body_writes
+                  (fun l l' => option_map a_params (nth_error l' j) = option_map a_params (nth_error l j)) sfe) as X.
+    cbv beta in X. specialize (X (fun l => eq_refl)).
+    specialize (X (fun x y z H1 H2 => eq_trans H2 H1)).
+    specialize (X Hs k ai s u s' a Ha H).
+    unfold params_at. rewrite X. unfold hostile_write. apply Nat.eqb_neq in Hj.
+    destruct k; try reflexivity; rewrite nth_error_upd, Nat.eqb_sym, Hj; reflexivity.
+  Qed.
+End Hostile.
+
+(* ---- the pieces above, stated on the functions of the model themselves ---- *)
+Section OnTheModel.
+  Variable tasks : list task.
+  Variable env : envcfg.
+
+  (* on_task_started / on_service_started = the start prefix, then the notification *)
+  Theorem on_task_started_split : forall f ai s,
+      on_task_started tasks env (S f) ai s =
+      (ots_prefix tasks ai ;;~ notify_user tasks env f TS ai false) s.
+  Proof. intros. rewrite on_task_started_S. apply ots_body_split. Qed.
+
+  Theorem on_service_started_split : forall f ai s,
+      on_service_started tasks env (S f) ai s =
+      (oss_prefix tasks ai ;;~ oss_announce (notify_user tasks env f) ai) s.
+  Proof. intros. rewrite on_service_started_S. apply oss_body_split. Qed.
+
+  (* test-id mode: every started task instance gets ITest (old ns_tid) and ns_tid grows by one;
+     every started service instance gets ITest (old ns_sid) and ns_sid grows by one *)
+  Theorem started_task_gets_counter : forall ai s u s1,
+      ns_test_ids s = true -> ots_prefix tasks ai s = Ok (u, s1) ->
+      uuid_at ai s1 = Some (ITest (ns_tid s)) /\ ns_tid s1 = S (ns_tid s) /\ ns_sid s1 = ns_sid s.
+  Proof.
+    intros ai s u s1 T H. destruct (ots_prefix_test tasks ai s u s1 H T) as (_ & _ & _ & B4 & B5 & B6). auto.
+  Qed.
+
+  Theorem started_service_gets_counter : forall ai s u s1,
+      ns_test_ids s = true -> oss_prefix tasks ai s = Ok (u, s1) ->
+      uuid_at ai s1 = Some (ITest (ns_sid s)) /\ ns_sid s1 = S (ns_sid s) /\ ns_tid s1 = ns_tid s.
+  Proof.
+    intros ai s u s1 T H. destruct (oss_prefix_test tasks ai s u s1 H T) as (_ & _ & _ & B4 & B5 & B6). auto.
+  Qed.
+
+  (* the counters only grow, the mode and the registered functions are never written
+     (for every function of the block: [ids_block]; here for fire_event) *)
+  Theorem fire_event_counters_grow : forall f ev s b s',
+      sched_fire_event tasks env f ev s = Ok (b, s') ->
+      ns_tid s <= ns_tid s' /\ ns_sid s <= ns_sid s' /\ ns_test_ids s' = ns_test_ids s /\ ns_ls s' = ns_ls s.
+  Proof.
+    intros f ev s b s' H. apply sched_fire_event_counters_grow in H as H1.
+    apply sched_fire_event_fixed_fields in H as H2.
+    destruct H1 as (_ & H1 & H1' & _). destruct H2 as (_ & _ & H2 & H2' & _). auto.
+  Qed.
+
+  (* engine_reacts: the engine's own write is [hostile_write] on the notified instance *)
+  Theorem engine_reacts_writes : forall (Rl : list api -> list api -> Prop) f,
+      (forall l, Rl l l) -> (forall a b c, Rl a b -> Rl b c -> Rl a c) ->
+      (forall ev s b s', sched_fire_event tasks env f ev s = Ok (b, s') -> Rl (ns_apis s) (ns_apis s')) ->
+      forall k ai s u s' a,
+        nth_error (ns_apis s) ai = Some a ->
+        engine_reacts tasks env (S f) k ai s = Ok (u, s') ->
+        Rl (hostile_write env k ai a (ns_apis s)) (ns_apis s').
+  Proof.
+    intros Rl f Rr Rt Hs k ai s u s' a Ha H. rewrite engine_reacts_S in H.
+    exact (er_body_writes env Rl (sched_fire_event tasks env f) Rr Rt Hs k ai s u s' a Ha H).
+  Qed.
+
+  (* the nested fire_event calls, like everything else, keep all static fields: after a
+     notification about ai the source list of every instance is what it was *)
+  Theorem engine_reacts_static : forall f k ai s u s',
+      engine_reacts tasks env f k ai s = Ok (u, s') -> api_static s s'.
+  Proof.
+    intros f k ai s u s' H.
+    exact (proj1 (proj2 (proj2 (proj2 (proj2 (proj2 (proj2 (proj2 (src_block tasks env f)))))))) k ai s u s' H).
+  Qed.
+End OnTheModel.
+
+(* ---- C15: the hypotheses are inhabited ---- *)
+
+(* the delivered lists of the service-started notifications of service nm to function 0 *)
+Definition delivered_to_0 (nm : name) (tr : list callrec) : list (list param) :=
+  flat_map (fun e => match e with
+                     | ENotif O n _ => if nkind_eqb (n_kind n) SS && Nat.eqb (n_name n) nm then [n_params n] else []
+                     | _ => [] end) (flat_map cr_log tr).
+
+Definition ex_hostile (m : nat) : runcase :=
+  {| rc_prog := rc_prog ex_case; rc_vals := rc_vals ex_case; rc_imm := rc_imm ex_case;
+     rc_script := rc_script ex_case; rc_react := rc_react ex_case; rc_react_all := rc_react_all ex_case;
+     rc_mutate := m; rc_test_ids := true |}.
+
+(* on the example of Examples.v, service S2 (name 20) sits in a counting loop and is delivered
+   d.items[i]; the generated net has an in-loop API object for it; with a hostile engine in
+   every mutation mode the two iterations are delivered d.items[0] and d.items[1], exactly as
+   without mutation *)
+Example rebuild_inhabited :
+  (exists s0 ai a, net_init (p_tasks (rc_prog ex_case)) true = Ok s0 /\
+                   nth_error (ns_apis s0) ai = Some a /\ a_name a = 20 /\ a_in_loop a = true /\
+                   a_src a = [PPath 16 [PF 8; PIdxVar 19]]) /\
+  forall m, m = 1 \/ m = 2 \/ m = 3 ->
+            exists tr, run_net (ex_hostile m) = Ok tr /\
+                       delivered_to_0 20 tr = [[PPath 16 [PF 8; PIdxLit 0]]; [PPath 16 [PF 8; PIdxLit 1]]].
+Proof.
+  split.
+  - eexists. exists 7. eexists. split; [vm_compute; reflexivity|]. split; [vm_compute; reflexivity|].
+    repeat split.
+  - intros m [->|[->| ->]]; eexists; (split; [vm_compute; reflexivity|vm_compute; reflexivity]).
+Qed.
